@@ -38,3 +38,640 @@ Proof.
   intro Ht. unfold run. destruct (existsb is_client (rts s)); [|cbn; discriminate].
   apply run_loop_fuel_enough; auto. unfold run_fuel, need. set (q := N.to_nat _). lia.
 Qed.
+
+(* ---- the specification, written without reference to the loop ------------ *)
+
+(* state of r's JoinHandle after the j-th tick from now on (if it is polled) *)
+Definition outcome_at (r : rt) (j : nat) : outcome := prog (cur_sw r) (polls r + j).
+Definition pend_before (r : rt) (j : nat) : Prop :=
+  forall i, (i < j)%nat -> outcome_at r i = Pend.
+(* r completes with Ok in one of the next M steps *)
+Definition done_ok_within (r : rt) (M : nat) : Prop :=
+  exists j, (j < M)%nat /\ pend_before r j /\ outcome_at r j = Ok_.
+(* r returns Err or panics in the j-th step from now (0-based) *)
+Definition fails_at (r : rt) (j : nat) : Prop :=
+  pend_before r j /\ (outcome_at r j = Err_ \/ outcome_at r j = Panic_).
+
+(* "every client finished Ok within the next M steps, no software failed within
+   them, and none of the steps before the M-th crossed the duration" *)
+Definition spec_ok (s : state) (M : nat) : Prop :=
+  (1 <= M)%nat /\
+  Forall (fun r => running r = true -> is_client r = true -> done_ok_within r M) (rts s) /\
+  Forall (fun r => running r = true -> forall j, (j < M)%nat -> ~ fails_at r j) (rts s) /\
+  (M = 1%nat \/ elapsed s + N.of_nat (M - 1) * tick s <= duration s).
+
+Lemma outcome_at_0 r : outcome_at r 0 = cur_outcome r.
+Proof. unfold outcome_at, cur_outcome. now rewrite Nat.add_0_r. Qed.
+
+Lemma adv_pend d r :
+  running r = true -> cur_outcome r = Pend ->
+  running (adv d r) = true /\ is_client (adv d r) = is_client r /\
+  forall j, outcome_at (adv d r) j = outcome_at r (S j).
+Proof.
+  intros Hr Ho. unfold adv, rt_tick. rewrite Hr, Ho. cbn. repeat split.
+  intro j. unfold outcome_at, cur_sw. cbn. f_equal. lia.
+Qed.
+
+Lemma adv_not_pend d r :
+  running r = true -> cur_outcome r <> Pend -> ok_out r = true -> running (adv d r) = false.
+Proof.
+  intros Hr Ho Hk. unfold adv, rt_tick, ok_out in *. rewrite Hr.
+  destruct (cur_outcome r); try discriminate; try contradiction; reflexivity.
+Qed.
+
+Lemma adv_stopped d r : running r = false -> running (adv d r) = false.
+Proof. intro Hr. unfold adv. rewrite Hr. exact Hr. Qed.
+
+Lemma all_ok_In l r : all_ok l = true -> In r l -> running r = true -> ok_out r = true.
+Proof.
+  unfold all_ok. rewrite forallb_forall. intros H Hin Hr. specialize (H r Hin).
+  now rewrite Hr in H.
+Qed.
+
+Lemma fin_now_false l :
+  fin_now l = false ->
+  exists r, In r l /\ running r = true /\ is_client r = true /\ cur_outcome r = Pend.
+Proof.
+  unfold fin_now. induction l as [|x l IH]; cbn; [discriminate|].
+  destruct (running x) eqn:Er, (is_client x) eqn:Ec; cbn;
+    try (intro H; destruct (IH H) as (r & A & B); exists r; split; [now right|exact B]).
+  destruct (cur_outcome x) eqn:Eo; cbn;
+    try (intro H; destruct (IH H) as (r & A & B); exists r; split; [now right|exact B]).
+  intros _. exists x. repeat split; auto.
+Qed.
+
+Lemma fin_now_true l r :
+  fin_now l = true -> In r l -> running r = true -> is_client r = true -> cur_outcome r <> Pend.
+Proof.
+  unfold fin_now. rewrite forallb_forall. intros H Hin Hr Hc. specialize (H r Hin).
+  rewrite Hr, Hc in H. cbn in H. destruct (cur_outcome r); congruence.
+Qed.
+
+Lemma ok_out_cases r : ok_out r = true -> cur_outcome r = Pend \/ cur_outcome r = Ok_.
+Proof. unfold ok_out. destruct (cur_outcome r); auto; discriminate. Qed.
+
+Lemma not_ok_out_fails r : ok_out r = false -> fails_at r 0.
+Proof.
+  unfold ok_out, fails_at. rewrite outcome_at_0. intro H. split.
+  - intros i Hi. lia.
+  - destruct (cur_outcome r); auto; discriminate.
+Qed.
+
+(* a software failure now excludes success *)
+Lemma spec_not_fail s M : all_ok (rts s) = false -> ~ spec_ok s M.
+Proof.
+  intros A (H1 & _ & H3 & _).
+  assert (exists r, In r (rts s) /\ running r = true /\ ok_out r = false) as (r & Hin & Hr & Ho).
+  { unfold all_ok in A. clear -A. induction (rts s) as [|x l IH]; cbn in *; [discriminate|].
+    destruct (running x) eqn:Er; cbn in *.
+    - destruct (ok_out x) eqn:Eo; cbn in *.
+      + destruct (IH A) as (r & B & C). exists r. split; auto.
+      + exists x. auto.
+    - destruct (IH A) as (r & B & C). exists r. split; auto. }
+  rewrite Forall_forall in H3. apply (H3 r Hin Hr 0%nat); [lia|]. now apply not_ok_out_fails.
+Qed.
+
+(* all running clients complete now: one step suffices *)
+Lemma spec_fin s : all_ok (rts s) = true -> fin_now (rts s) = true -> spec_ok s 1.
+Proof.
+  intros A F. split; [lia|]. split; [|split; [|now left]].
+  - apply Forall_forall. intros r Hin Hr Hc. exists 0%nat. split; [lia|]. split.
+    + intros i Hi; lia.
+    + rewrite outcome_at_0. pose proof (fin_now_true _ _ F Hin Hr Hc).
+      destruct (ok_out_cases r (all_ok_In _ _ A Hin Hr)); congruence.
+  - apply Forall_forall. intros r Hin Hr j Hj [_ Hf]. assert (j = 0)%nat by lia. subst.
+    rewrite outcome_at_0 in Hf.
+    destruct (ok_out_cases r (all_ok_In _ _ A Hin Hr)); destruct Hf; congruence.
+Qed.
+
+Lemma spec_ge2 s M :
+  all_ok (rts s) = true -> fin_now (rts s) = false -> spec_ok s M -> (2 <= M)%nat.
+Proof.
+  intros A F (H1 & H2 & _). destruct (fin_now_false _ F) as (r & Hin & Hr & Hc & Ho).
+  rewrite Forall_forall in H2. destruct (H2 r Hin Hr Hc) as (j & Hj & Hp & Hok).
+  destruct j; [rewrite outcome_at_0 in Hok; congruence|]. lia.
+Qed.
+
+(* the duration is crossed with a client unfinished *)
+Lemma spec_not_timeout s M :
+  all_ok (rts s) = true -> fin_now (rts s) = false -> duration s < elapsed s + tick s ->
+  ~ spec_ok s M.
+Proof.
+  intros A F D S. pose proof (spec_ge2 _ _ A F S) as G.
+  destruct S as (_ & _ & _ & [->|H]); [lia|].
+  assert (N.of_nat (M - 1) >= 1) by lia. nia.
+Qed.
+
+(* one successful, not final step: the specification moves with the state *)
+Lemma spec_step_down s M :
+  all_ok (rts s) = true -> fin_now (rts s) = false -> spec_ok s M ->
+  spec_ok (bump s (map (adv (tick s)) (rts s))) (M - 1).
+Proof.
+  intros A F S. pose proof (spec_ge2 _ _ A F S) as G.
+  destruct S as (H1 & H2 & H3 & H4). rewrite Forall_forall in H2, H3.
+  split; [lia|]. cbn [rts bump]. split; [|split].
+  - apply Forall_forall. intros r' Hin' Hr' Hc'.
+    apply in_map_iff in Hin' as (r & <- & Hin).
+    destruct (running r) eqn:Er; [|rewrite adv_stopped in Hr' by auto; discriminate].
+    pose proof (all_ok_In _ _ A Hin Er) as Ok. destruct (ok_out_cases r Ok) as [Ep|Eo].
+    + destruct (adv_pend (tick s) r Er Ep) as (_ & Hc & Hs). rewrite Hc in Hc'.
+      destruct (H2 r Hin Er Hc') as (j & Hj & Hp & Hok).
+      destruct j; [rewrite outcome_at_0 in Hok; congruence|].
+      exists j. split; [lia|]. split.
+      * intros i Hi. rewrite Hs. apply Hp. lia.
+      * now rewrite Hs.
+    + rewrite adv_not_pend in Hr'; auto; [discriminate|congruence].
+  - apply Forall_forall. intros r' Hin' Hr' j Hj.
+    apply in_map_iff in Hin' as (r & <- & Hin).
+    destruct (running r) eqn:Er; [|rewrite adv_stopped in Hr' by auto; discriminate].
+    pose proof (all_ok_In _ _ A Hin Er) as Ok. destruct (ok_out_cases r Ok) as [Ep|Eo].
+    + destruct (adv_pend (tick s) r Er Ep) as (_ & _ & Hs).
+      intros [Hp Hf]. apply (H3 r Hin Er (S j)); [lia|]. split.
+      * intros i Hi. destruct i; [now rewrite outcome_at_0|]. rewrite <- Hs. apply Hp. lia.
+      * now rewrite <- Hs.
+    + rewrite adv_not_pend in Hr'; auto; [discriminate|congruence].
+  - destruct H4 as [->|H4]; [lia|]. destruct (Nat.eq_dec M 2) as [->|Hn]; [now left|right].
+    cbn [elapsed tick duration bump].
+    replace (N.of_nat (M - 1)) with (N.of_nat (M - 1 - 1) + 1) in H4 by lia. lia.
+Qed.
+
+Lemma spec_step_up s M :
+  all_ok (rts s) = true -> elapsed s + tick s <= duration s ->
+  spec_ok (bump s (map (adv (tick s)) (rts s))) M -> spec_ok s (S M).
+Proof.
+  intros A D (H1 & H2 & H3 & H4). cbn [rts bump] in H2, H3.
+  rewrite Forall_forall in H2, H3.
+  split; [lia|]. split; [|split].
+  - apply Forall_forall. intros r Hin Hr Hc.
+    pose proof (all_ok_In _ _ A Hin Hr) as Ok. destruct (ok_out_cases r Ok) as [Ep|Eo].
+    + destruct (adv_pend (tick s) r Hr Ep) as (Hr' & Hc' & Hs).
+      destruct (H2 (adv (tick s) r) (in_map _ _ _ Hin) Hr' (eq_trans Hc' Hc)) as (j & Hj & Hp & Hok).
+      exists (S j). split; [lia|]. split.
+      * intros i Hi. destruct i; [now rewrite outcome_at_0|]. rewrite <- Hs. apply Hp. lia.
+      * now rewrite <- Hs.
+    + exists 0%nat. split; [lia|]. split; [intros i Hi; lia|]. now rewrite outcome_at_0.
+  - apply Forall_forall. intros r Hin Hr j Hj [Hp Hf].
+    pose proof (all_ok_In _ _ A Hin Hr) as Ok. destruct (ok_out_cases r Ok) as [Ep|Eo].
+    + destruct (adv_pend (tick s) r Hr Ep) as (Hr' & _ & Hs).
+      destruct j; [rewrite outcome_at_0 in Hf; destruct Hf; congruence|].
+      apply (H3 (adv (tick s) r) (in_map _ _ _ Hin) Hr' j); [lia|]. split.
+      * intros i Hi. rewrite Hs. apply Hp. lia.
+      * now rewrite !Hs.
+    + destruct j; [rewrite outcome_at_0 in Hf; destruct Hf; congruence|].
+      specialize (Hp 0%nat ltac:(lia)). rewrite outcome_at_0 in Hp. congruence.
+  - right. cbn [elapsed tick duration bump] in H4.
+    replace (S M - 1)%nat with M by lia.
+    destruct H4 as [->|H4]; [lia|].
+    replace (N.of_nat M) with (N.of_nat (M - 1) + 1) by lia. lia.
+Qed.
+
+(* ---- the loop against the specification ----------------------------------- *)
+
+Definition rres_of (x : state * rres * nat * list read_obs) : rres := snd (fst (fst x)).
+Definition nsteps_of (x : state * rres * nat * list read_obs) : nat := snd (fst x).
+Definition state_of (x : state * rres * nat * list read_obs) : state := fst (fst (fst x)).
+
+Lemma run_loop_ok_spec : forall fuel orc i s log,
+  rres_of (run_loop fuel orc i s log) = RunOk ->
+  exists m, nsteps_of (run_loop fuel orc i s log) = (i + m)%nat /\ spec_ok s m /\
+            (forall M, spec_ok s M -> (m <= M)%nat).
+Proof.
+  induction fuel as [|f IH]; intros orc i s log H; [discriminate|].
+  cbn in *. destruct (step s (orc i)) as [[s' r] lg] eqn:E.
+  destruct (step_res_cases _ _ _ _ _ E) as [(A & -> & ->)|(A & [-> | ->] & _)]; try discriminate.
+  destruct ((duration s <? elapsed s + tick s) && negb (fin_now (rts s))) eqn:C; [discriminate|].
+  destruct (fin_now (rts s)) eqn:F.
+  - exists 1%nat. cbn. split; [lia|]. split; [now apply spec_fin|]. intros M (HM & _). lia.
+  - rewrite andb_true_r in C. apply N.ltb_ge in C.
+    destruct (IH _ _ _ _ H) as (m & Hn & Hs & Hmin).
+    exists (S m). split; [rewrite Hn; lia|]. split; [now apply spec_step_up|].
+    intros M HM. pose proof (spec_ge2 _ _ A F HM).
+    specialize (Hmin _ (spec_step_down _ _ A F HM)). lia.
+Qed.
+
+Lemma run_loop_spec_ok : forall fuel orc i s log M,
+  0 < tick s -> (need s <= fuel)%nat -> spec_ok s M ->
+  rres_of (run_loop fuel orc i s log) = RunOk.
+Proof.
+  induction fuel as [|f IH]; intros orc i s log M Ht Hn HM.
+  - exfalso. unfold need in Hn. set (q := N.to_nat _) in Hn. lia.
+  - cbn. destruct (step s (orc i)) as [[s' r] lg] eqn:E.
+    destruct (step_res_cases _ _ _ _ _ E) as [(A & -> & ->)|(A & _ & _)];
+      [|exfalso; eapply spec_not_fail; eauto].
+    destruct (fin_now (rts s)) eqn:F.
+    + rewrite andb_false_r. reflexivity.
+    + rewrite andb_true_r. destruct (duration s <? elapsed s + tick s) eqn:C.
+      * apply N.ltb_lt in C. exfalso. eapply spec_not_timeout; eauto.
+      * apply N.ltb_ge in C. apply (IH _ _ _ _ (M - 1)%nat).
+        -- exact Ht.
+        -- pose proof (need_bump s (map (adv (tick s)) (rts s)) Ht C). lia.
+        -- now apply spec_step_down.
+Qed.
+
+Theorem c11_ok_iff_lemma s orc :
+  0 < tick s -> existsb is_client (rts s) = true ->
+  (rres_of (run s orc) = RunOk <-> exists M, spec_ok s M).
+Proof.
+  intros Ht Hc. unfold run. rewrite Hc. split.
+  - intro H. destruct (run_loop_ok_spec _ _ _ _ _ H) as (m & _ & Hs & _). eauto.
+  - intros [M HM]. eapply run_loop_spec_ok; eauto. unfold run_fuel, need.
+    set (q := N.to_nat _). lia.
+Qed.
+
+Theorem c11_no_clients_lemma s orc :
+  existsb is_client (rts s) = false -> run s orc = (s, RunOk, 0%nat, []).
+Proof. intro H. unfold run. now rewrite H. Qed.
+
+(* the number of steps of a successful run is the least M of the specification *)
+Theorem c11_ok_steps_lemma s orc :
+  existsb is_client (rts s) = true -> rres_of (run s orc) = RunOk ->
+  spec_ok s (nsteps_of (run s orc)) /\
+  forall M, spec_ok s M -> (nsteps_of (run s orc) <= M)%nat.
+Proof.
+  intros Hc. unfold run. rewrite Hc. intro H.
+  destruct (run_loop_ok_spec _ _ _ _ _ H) as (m & Hn & Hs & Hmin). rewrite Hn. auto.
+Qed.
+
+(* ---- failure is reported in the step in which it happens -------------------- *)
+
+(* m successful steps can be made from s: nobody fails, not all clients are
+   done, the duration is not crossed *)
+Fixpoint after (s : state) (m : nat) : state :=
+  match m with O => s | S k => after (bump s (map (adv (tick s)) (rts s))) k end.
+Fixpoint quiet (s : state) (m : nat) : Prop :=
+  match m with
+  | O => True
+  | S k => all_ok (rts s) = true /\ fin_now (rts s) = false /\ elapsed s + tick s <= duration s /\
+           quiet (bump s (map (adv (tick s)) (rts s))) k
+  end.
+
+Lemma run_loop_err_spec : forall fuel orc i s log,
+  (rres_of (run_loop fuel orc i s log) = RunErr \/ rres_of (run_loop fuel orc i s log) = RunPanic) ->
+  exists m, nsteps_of (run_loop fuel orc i s log) = (i + S m)%nat /\ quiet s m /\
+            all_ok (rts (after s m)) = false /\
+            elapsed (state_of (run_loop fuel orc i s log)) = elapsed (after s m).
+Proof.
+  induction fuel as [|f IH]; intros orc i s log H; [destruct H; discriminate|].
+  cbn in *. destruct (step s (orc i)) as [[s' r] lg] eqn:E.
+  destruct (step_res_cases _ _ _ _ _ E) as [(A & -> & ->)|(A & Hr & l & ->)].
+  - destruct ((duration s <? elapsed s + tick s) && negb (fin_now (rts s))) eqn:C;
+      [destruct H; discriminate|].
+    destruct (fin_now (rts s)) eqn:F; [destruct H; discriminate|].
+    rewrite andb_true_r in C. apply N.ltb_ge in C.
+    destruct (IH _ _ _ _ H) as (m & Hn & Hq & Hf & He).
+    exists (S m). cbn. rewrite Hn. repeat split; auto. lia.
+  - exists 0%nat. cbn. destruct Hr as [-> | ->]; cbn; repeat split; auto; lia.
+Qed.
+
+Lemma run_loop_timeout_spec : forall fuel orc i s log,
+  rres_of (run_loop fuel orc i s log) = RunTimeout ->
+  exists m, nsteps_of (run_loop fuel orc i s log) = (i + S m)%nat /\ quiet s m /\
+            all_ok (rts (after s m)) = true /\ fin_now (rts (after s m)) = false /\
+            duration s < elapsed (after s m) + tick s /\
+            elapsed (state_of (run_loop fuel orc i s log)) = elapsed (after s m) + tick s.
+Proof.
+  induction fuel as [|f IH]; intros orc i s log H; [discriminate|].
+  cbn in *. destruct (step s (orc i)) as [[s' r] lg] eqn:E.
+  destruct (step_res_cases _ _ _ _ _ E) as [(A & -> & ->)|(A & [-> | ->] & _)]; try discriminate.
+  destruct ((duration s <? elapsed s + tick s) && negb (fin_now (rts s))) eqn:C.
+  - apply andb_true_iff in C as [C1 C2]. apply N.ltb_lt in C1. apply negb_true_iff in C2.
+    exists 0%nat. cbn. repeat split; auto; lia.
+  - destruct (fin_now (rts s)) eqn:F; [discriminate|].
+    rewrite andb_true_r in C. apply N.ltb_ge in C.
+    destruct (IH _ _ _ _ H) as (m & Hn & Hq & Hf1 & Hf2 & Hd & He).
+    exists (S m). cbn. rewrite Hn. repeat split; auto. lia.
+Qed.
+
+(* ---- the result does not depend on the order oracle ------------------------- *)
+
+Definition rclass (r : rres) : N :=
+  match r with RunOk => 0 | RunErr | RunPanic => 1 | RunTimeout => 2 | RunFuel => 3 end.
+
+Lemma run_loop_order_indep : forall fuel o1 o2 i1 i2 s l1 l2,
+  rclass (rres_of (run_loop fuel o1 i1 s l1)) = rclass (rres_of (run_loop fuel o2 i2 s l2)) /\
+  (nsteps_of (run_loop fuel o1 i1 s l1) - i1 = nsteps_of (run_loop fuel o2 i2 s l2) - i2)%nat /\
+  (rclass (rres_of (run_loop fuel o1 i1 s l1)) <> 1 ->
+   state_of (run_loop fuel o1 i1 s l1) = state_of (run_loop fuel o2 i2 s l2)) /\
+  elapsed (state_of (run_loop fuel o1 i1 s l1)) = elapsed (state_of (run_loop fuel o2 i2 s l2)).
+Proof.
+  induction fuel as [|f IH]; intros o1 o2 i1 i2 s l1 l2.
+  - unfold rres_of, nsteps_of, state_of; cbn [fst snd rclass run_loop]. repeat split; auto. lia.
+  - cbn. destruct (step s (o1 i1)) as [[s1 r1] lg1] eqn:E1.
+    destruct (step s (o2 i2)) as [[s2 r2] lg2] eqn:E2.
+    destruct (step_res_cases _ _ _ _ _ E1) as [(A & -> & ->)|(A & Hr1 & la & ->)];
+    destruct (step_res_cases _ _ _ _ _ E2) as [(A' & -> & ->)|(A' & Hr2 & lb & ->)];
+      try congruence.
+    + destruct ((duration s <? elapsed s + tick s) && negb (fin_now (rts s))).
+      * unfold rres_of, nsteps_of, state_of; cbn [fst snd rclass run_loop]. repeat split; auto. lia.
+      * destruct (fin_now (rts s)).
+        -- unfold rres_of, nsteps_of, state_of; cbn [fst snd rclass run_loop]. repeat split; auto. lia.
+        -- destruct (IH o1 o2 (S i1) (S i2) (bump s (map (adv (tick s)) (rts s)))
+                       (l1 ++ lg1) (l2 ++ lg2)) as (B1 & B2 & B3 & B4).
+           repeat split; auto.
+           pose proof (run_loop_ok_spec f o1 (S i1)). pose proof (run_loop_ok_spec f o2 (S i2)).
+           clear -B2.
+           assert (forall fu o i st lg, (i <= nsteps_of (run_loop fu o i st lg))%nat) as Mono.
+           { induction fu as [|fu IHf]; intros o i st lg; cbn; [lia|].
+             destruct (step st (o i)) as [[st' rr] lgg]. destruct rr as [[|]| | |]; cbn; try lia.
+             specialize (IHf o (S i) st' (lg ++ lgg)). lia. }
+           pose proof (Mono f o1 (S i1) (bump s (map (adv (tick s)) (rts s))) (l1 ++ lg1)).
+           pose proof (Mono f o2 (S i2) (bump s (map (adv (tick s)) (rts s))) (l2 ++ lg2)).
+           lia.
+    + destruct Hr1 as [-> | ->], Hr2 as [-> | ->]; unfold rres_of, nsteps_of, state_of; cbn [fst snd rclass run_loop]; repeat split; auto; try lia; congruence.
+Qed.
+
+Theorem c11_order_independent_lemma s o1 o2 :
+  rclass (rres_of (run s o1)) = rclass (rres_of (run s o2)) /\
+  nsteps_of (run s o1) = nsteps_of (run s o2) /\
+  (rclass (rres_of (run s o1)) <> 1 -> state_of (run s o1) = state_of (run s o2)) /\
+  elapsed (state_of (run s o1)) = elapsed (state_of (run s o2)).
+Proof.
+  unfold run. destruct (existsb is_client (rts s)); [|cbn; auto].
+  destruct (run_loop_order_indep (run_fuel s) o1 o2 0 0 s [] []) as (A & B & C & D).
+  repeat split; auto. now rewrite !Nat.sub_0_r in B.
+Qed.
+
+(* ---- loop-free reading of `after` / `quiet` --------------------------------- *)
+
+Fixpoint advn (d : N) (m : nat) (r : rt) : rt :=
+  match m with O => r | S k => advn d k (adv d r) end.
+
+Lemma after_params s m :
+  tick (after s m) = tick s /\ duration (after s m) = duration s /\
+  elapsed (after s m) = elapsed s + N.of_nat m * tick s /\
+  rts (after s m) = map (advn (tick s) m) (rts s).
+Proof.
+  revert s. induction m as [|k IH]; intro s.
+  - cbn. repeat split; auto; try lia. now rewrite map_id.
+  - cbn [after]. destruct (IH (bump s (map (adv (tick s)) (rts s)))) as (A & B & C & D).
+    cbn [tick duration elapsed rts bump] in *. repeat split; auto; try lia.
+    rewrite D, map_map. reflexivity.
+Qed.
+
+Lemma pend_before_shift r r' m :
+  pend_before r' m -> cur_outcome r = Pend -> (forall j, outcome_at r' j = outcome_at r (S j)) ->
+  pend_before r (S m).
+Proof.
+  intros Hp Ho Hs i Hi. destruct i; [now rewrite outcome_at_0|]. rewrite <- Hs. apply Hp. lia.
+Qed.
+
+(* an rt still running after m quiet steps was pending all along *)
+Lemma quiet_running : forall m s r,
+  quiet s m -> In r (rts s) -> running (advn (tick s) m r) = true ->
+  running r = true /\ pend_before r m /\
+  forall j, outcome_at (advn (tick s) m r) j = outcome_at r (m + j).
+Proof.
+  induction m as [|k IH]; intros s r Q Hin Hr.
+  - cbn in *. repeat split; auto. intros i Hi; lia.
+  - cbn [quiet] in Q. destruct Q as (A & _ & _ & Q). cbn [advn] in *.
+    destruct (IH (bump s (map (adv (tick s)) (rts s))) (adv (tick s) r) Q (in_map _ _ _ Hin) Hr)
+      as (R1 & R2 & R3).
+    destruct (running r) eqn:Er; [|rewrite adv_stopped in R1 by auto; discriminate].
+    pose proof (all_ok_In _ _ A Hin Er) as Ok. destruct (ok_out_cases r Ok) as [Ep|Eo].
+    + destruct (adv_pend (tick s) r Er Ep) as (_ & _ & Hs).
+      repeat split; auto.
+      * eapply pend_before_shift; eauto.
+      * intro j. cbn [tick bump] in R3. rewrite R3, Hs. f_equal.
+    + rewrite adv_not_pend in R1; auto; [discriminate|congruence].
+Qed.
+
+(* conversely, an rt pending for m steps is still running after them *)
+Lemma quiet_pending : forall m s r,
+  quiet s m -> In r (rts s) -> running r = true -> pend_before r m ->
+  running (advn (tick s) m r) = true /\
+  is_client (advn (tick s) m r) = is_client r /\
+  forall j, outcome_at (advn (tick s) m r) j = outcome_at r (m + j).
+Proof.
+  induction m as [|k IH]; intros s r Q Hin Hr Hp.
+  - cbn. repeat split; auto.
+  - cbn [quiet] in Q. destruct Q as (A & _ & _ & Q). cbn [advn].
+    assert (Ep : cur_outcome r = Pend) by (rewrite <- outcome_at_0; apply Hp; lia).
+    destruct (adv_pend (tick s) r Hr Ep) as (Hr' & Hc' & Hs).
+    destruct (IH (bump s (map (adv (tick s)) (rts s))) (adv (tick s) r) Q (in_map _ _ _ Hin) Hr')
+      as (R1 & R2 & R3).
+    { intros i Hi. rewrite Hs. apply Hp. lia. }
+    cbn [tick bump] in *. repeat split; auto; [congruence|].
+    intro j. rewrite R3, Hs. f_equal.
+Qed.
+
+Lemma quiet_prefix : forall m s j, quiet s m -> (j < m)%nat ->
+  quiet s j /\ all_ok (rts (after s j)) = true /\ fin_now (rts (after s j)) = false /\
+  elapsed (after s j) + tick s <= duration s.
+Proof.
+  induction m as [|k IH]; intros s j Q Hj; [lia|].
+  cbn [quiet] in Q. destruct Q as (A & F & D & Q). destruct j.
+  - cbn. auto.
+  - destruct (IH _ j Q ltac:(lia)) as (B1 & B2 & B3 & B4). cbn [quiet after].
+    cbn [tick duration bump] in B4. repeat split; auto.
+Qed.
+
+Lemma all_ok_false_ex l : all_ok l = false ->
+  exists r, In r l /\ running r = true /\ ok_out r = false.
+Proof.
+  unfold all_ok. induction l as [|x l IH]; cbn; [discriminate|].
+  destruct (running x) eqn:Er; cbn.
+  - destruct (ok_out x) eqn:Eo; cbn.
+    + intro A. destruct (IH A) as (r & B & C). exists r. split; auto.
+    + intros _. exists x. auto.
+  - intro A. destruct (IH A) as (r & B & C). exists r. split; auto.
+Qed.
+
+(* no software failure during quiet steps *)
+Lemma quiet_no_fail s m r j :
+  quiet s m -> In r (rts s) -> running r = true -> (j < m)%nat -> ~ fails_at r j.
+Proof.
+  intros Q Hin Hr Hj [Hp Hf].
+  destruct (quiet_prefix _ _ _ Q Hj) as (Qj & Aj & _ & _).
+  destruct (quiet_pending _ _ _ Qj Hin Hr Hp) as (R1 & _ & R3).
+  destruct (after_params s j) as (_ & _ & _ & Hrts).
+  assert (Hin' : In (advn (tick s) j r) (rts (after s j))) by (rewrite Hrts; now apply in_map).
+  pose proof (all_ok_In _ _ Aj Hin' R1) as Ok. unfold ok_out in Ok.
+  rewrite <- outcome_at_0, R3, Nat.add_0_r in Ok. destruct Hf as [Hf|Hf]; rewrite Hf in Ok; discriminate.
+Qed.
+
+(* "as soon as": a failing run stops in the very step in which the first
+   software failure happens; elapsed is that of the steps before it *)
+Theorem c11_err_asap_lemma s orc :
+  (rres_of (run s orc) = RunErr \/ rres_of (run s orc) = RunPanic) ->
+  exists m r,
+    nsteps_of (run s orc) = S m /\ In r (rts s) /\ running r = true /\ fails_at r m /\
+    (forall r', In r' (rts s) -> running r' = true -> forall j, (j < m)%nat -> ~ fails_at r' j) /\
+    elapsed (state_of (run s orc)) = elapsed s + N.of_nat m * tick s /\
+    (m = 0%nat \/ elapsed s + N.of_nat m * tick s <= duration s).
+Proof.
+  unfold run. destruct (existsb is_client (rts s)); [|intros [H|H]; discriminate].
+  intro H. destruct (run_loop_err_spec _ _ _ _ _ H) as (m & Hn & Q & Af & He).
+  destruct (after_params s m) as (_ & _ & Hel & Hrts).
+  destruct (all_ok_false_ex _ Af) as (r' & Hin' & Hr' & Ho').
+  rewrite Hrts in Hin'. apply in_map_iff in Hin' as (r & <- & Hin).
+  destruct (quiet_running _ _ _ Q Hin Hr') as (R1 & R2 & R3).
+  exists m, r. repeat split; auto.
+  - destruct (not_ok_out_fails _ Ho') as [_ Hf]. rewrite R3, Nat.add_0_r in Hf. exact Hf.
+  - intros r0 Hin0 Hr0 j Hj. eapply quiet_no_fail; eauto.
+  - congruence.
+  - destruct m; [now left|right].
+    destruct (quiet_prefix _ _ m Q ltac:(lia)) as (_ & _ & _ & D).
+    destruct (after_params s m) as (_ & _ & Hel' & _). lia.
+Qed.
+
+(* the duration error comes in the first step whose end lies beyond the
+   duration, with a client still unfinished and nothing having failed *)
+Theorem c11_timeout_asap_lemma s orc :
+  rres_of (run s orc) = RunTimeout ->
+  exists m r,
+    nsteps_of (run s orc) = S m /\
+    duration s < elapsed s + N.of_nat (S m) * tick s /\
+    (m = 0%nat \/ elapsed s + N.of_nat m * tick s <= duration s) /\
+    In r (rts s) /\ running r = true /\ is_client r = true /\ pend_before r (S m) /\
+    (forall r', In r' (rts s) -> running r' = true -> forall j, (j <= m)%nat -> ~ fails_at r' j) /\
+    elapsed (state_of (run s orc)) = elapsed s + N.of_nat (S m) * tick s.
+Proof.
+  unfold run. destruct (existsb is_client (rts s)); [|discriminate].
+  intro H. destruct (run_loop_timeout_spec _ _ _ _ _ H) as (m & Hn & Q & Ao & Ff & Hd & He).
+  destruct (after_params s m) as (_ & _ & Hel & Hrts).
+  destruct (fin_now_false _ Ff) as (r' & Hin' & Hr' & Hc' & Ho').
+  rewrite Hrts in Hin'. apply in_map_iff in Hin' as (r & <- & Hin).
+  destruct (quiet_running _ _ _ Q Hin Hr') as (R1 & R2 & R3).
+  destruct (quiet_pending _ _ _ Q Hin R1 R2) as (_ & Hc & _).
+  exists m, r. repeat split; auto; try lia.
+  - destruct m; [now left|right].
+    destruct (quiet_prefix _ _ m Q ltac:(lia)) as (_ & _ & _ & D).
+    destruct (after_params s m) as (_ & _ & Hel' & _). lia.
+  - congruence.
+  - intros i Hi. destruct (Nat.eq_dec i m) as [->|Hne]; [|apply R2; lia].
+    rewrite <- (Nat.add_0_r m), <- R3, outcome_at_0. exact Ho'.
+  - intros r0 Hin0 Hr0 j Hj. destruct (Nat.eq_dec j m) as [->|Hne].
+    + intros [Hp Hf]. destruct (quiet_pending _ _ _ Q Hin0 Hr0 Hp) as (S1 & _ & S3).
+      assert (Hin1 : In (advn (tick s) m r0) (rts (after s m))) by (rewrite Hrts; now apply in_map).
+      pose proof (all_ok_In _ _ Ao Hin1 S1) as Ok. unfold ok_out in Ok.
+      rewrite <- outcome_at_0, S3, Nat.add_0_r in Ok.
+      destruct Hf as [Hf|Hf]; rewrite Hf in Ok; discriminate.
+    + eapply quiet_no_fail; eauto. lia.
+Qed.
+
+(* ---- hosts that never finish do not block success ---------------------------- *)
+
+Lemma done_ok_no_fail r M : done_ok_within r M -> forall j, ~ fails_at r j.
+Proof.
+  intros (k & _ & Hp & Hok) j [Hpj Hf].
+  destruct (Nat.lt_trichotomy j k) as [Hl|[->|Hg]].
+  - rewrite (Hp j Hl) in Hf. destruct Hf; discriminate.
+  - rewrite Hok in Hf. destruct Hf; discriminate.
+  - rewrite (Hpj k Hg) in Hok. discriminate.
+Qed.
+
+Theorem c11_hosts_dont_block_lemma s orc M :
+  0 < tick s -> existsb is_client (rts s) = true -> (1 <= M)%nat ->
+  (forall r, In r (rts s) -> running r = true -> is_client r = true -> done_ok_within r M) ->
+  (forall r, In r (rts s) -> running r = true -> is_client r = false ->
+     forall j, (j < M)%nat -> outcome_at r j = Pend \/ outcome_at r j = Ok_) ->
+  (M = 1%nat \/ elapsed s + N.of_nat (M - 1) * tick s <= duration s) ->
+  rres_of (run s orc) = RunOk.
+Proof.
+  intros Ht Hc HM Hcl Hho Hd. apply c11_ok_iff_lemma; auto. exists M.
+  split; [exact HM|]. split; [|split; [|exact Hd]].
+  - apply Forall_forall. intros r Hin Hr Hic. auto.
+  - apply Forall_forall. intros r Hin Hr j Hj.
+    destruct (is_client r) eqn:Eic.
+    + eapply done_ok_no_fail; eauto.
+    + intros [_ Hf]. destruct (Hho r Hin Hr Eic j Hj) as [E|E]; rewrite E in Hf; destruct Hf; discriminate.
+Qed.
+
+(* ---- finished or crashed software is never polled again ---------------------- *)
+
+Lemma iter_crash1 k r : running r = false ->
+  running (Nat.iter k crash1 r) = false /\ polls (Nat.iter k crash1 r) = polls r /\
+  starts (Nat.iter k crash1 r) = starts r.
+Proof. intro H. induction k as [|k IH]; cbn; auto. destruct IH as (A & B & C). auto. Qed.
+
+Theorem c11_no_repoll_lemma s e j r :
+  nth_error (rts s) j = Some r -> running r = false ->
+  exists r', nth_error (rts (fst (apply s e))) j = Some r' /\
+    ((running r' = false /\ polls r' = polls r /\ starts r' = starts r) \/
+     (exists hs, e = Bounce hs /\ In j hs)) /\
+    (forall o, In o (obs_log (snd (apply s e))) -> o_host o <> j).
+Proof.
+  intros Ej Hr. destruct e as [p|p|order|orders|hs|hs|]; cbn [apply].
+  - cbn. exists r. split; [now apply nth_error_app_some|]. split; [now left|intros o []].
+  - cbn. exists r. split; [now apply nth_error_app_some|]. split; [now left|intros o []].
+  - destruct (step s order) as [[s' res] log] eqn:E. cbn [fst snd obs_log].
+    destruct (step_evolves _ _ _ _ _ E) as (_ & R). destruct (R j r Ej) as (r' & A & B).
+    exists r'. split; [exact A|]. split.
+    + left. destruct (ev_stopped _ _ _ B Hr). repeat split; auto. apply (ev_starts _ _ _ B).
+    + intros o Ho. destruct (step_log_sound _ _ _ _ _ _ E Ho) as (r0 & A0 & B0 & _).
+      intros <-. congruence.
+  - destruct (run s (orc_of orders (rts s))) as [[[s' res] n] log] eqn:E. cbn [fst snd obs_log].
+    destruct (run_evolves _ _ _ _ _ _ E) as (_ & _ & _ & _ & _ & _ & R).
+    destruct (R j r Ej) as (r' & A & B).
+    exists r'. split; [exact A|]. split.
+    + left. destruct (ev_stopped _ _ _ B Hr). repeat split; auto. apply (ev_starts _ _ _ B).
+    + unfold run in E. destruct (existsb is_client (rts s)).
+      * eapply run_loop_log_host; eauto.
+        unfold is_running_at. now rewrite Ej.
+      * inversion E; subst. intros o [].
+  - destruct (for_hosts crash1 (rts s) hs) as [l ok] eqn:E. cbn [fst snd obs_log set_rts rts].
+    destruct (for_hosts_rel _ _ _ _ _ E) as (_ & R). destruct (R j r Ej) as (k & A & _).
+    eexists. split; [exact A|]. split; [left; now apply iter_crash1|intros o []].
+  - destruct (for_hosts bounce1 (rts s) hs) as [l ok] eqn:E. cbn [fst snd obs_log set_rts rts].
+    destruct (for_hosts_rel _ _ _ _ _ E) as (_ & R). destruct (R j r Ej) as (k & A & B).
+    eexists. split; [exact A|]. split; [|intros o []].
+    destruct (in_dec Nat.eq_dec j hs) as [Hin|Hn]; [right; eauto|].
+    rewrite (B Hn). cbn. left. auto.
+  - cbn. exists r. split; [exact Ej|]. split; [now left|intros o []].
+Qed.
+
+(* ---- Sim::step reports completion consistently with Sim::run ------------------- *)
+
+Fixpoint iter_steps (n : nat) (orc : nat -> list nat) (i : nat) (s : state) (log : list read_obs)
+  : state * list sres * list read_obs :=
+  match n with
+  | O => (s, [], log)
+  | S k =>
+      let '(s', r, lg) := step s (orc i) in
+      let '(s'', rs, lg') := iter_steps k orc (S i) s' (log ++ lg) in (s'', r :: rs, lg')
+  end.
+
+Definition final_matches (r : sres) (rr : rres) : Prop :=
+  match r, rr with
+  | ROk true, RunOk | RErr, RunErr | RTimeout, RunTimeout | RPanic, RunPanic => True
+  | _, _ => False
+  end.
+
+Lemma iter_steps_S k orc i s log :
+  iter_steps (S k) orc i s log =
+  let '(s', r, lg) := step s (orc i) in
+  let '(s'', rs, lg') := iter_steps k orc (S i) s' (log ++ lg) in (s'', r :: rs, lg').
+Proof. reflexivity. Qed.
+
+Lemma run_loop_is_steps : forall fuel orc i s log,
+  rres_of (run_loop fuel orc i s log) <> RunFuel ->
+  exists m last,
+    nsteps_of (run_loop fuel orc i s log) = (i + S m)%nat /\
+    iter_steps (S m) orc i s log =
+      (state_of (run_loop fuel orc i s log), repeat (ROk false) m ++ [last],
+       snd (run_loop fuel orc i s log)) /\
+    final_matches last (rres_of (run_loop fuel orc i s log)).
+Proof.
+  induction fuel as [|f IH]; intros orc i s log H; [now contradiction H|].
+  cbn [run_loop] in *. destruct (step s (orc i)) as [[s' r] lg] eqn:E.
+  destruct r as [[|]| | |];
+    try (exists 0%nat; eexists; rewrite iter_steps_S, E;
+         unfold rres_of, nsteps_of, state_of; cbn [fst snd repeat app iter_steps];
+         split; [lia|split; [reflexivity|exact I]]).
+  destruct (IH _ _ _ _ H) as (m & last & Hn & Hi & Hf).
+  exists (S m), last. split; [rewrite Hn; lia|]. split; [|exact Hf].
+  rewrite iter_steps_S, E, Hi. reflexivity.
+Qed.
+
+Theorem c11_step_consistent_lemma s orc :
+  0 < tick s -> existsb is_client (rts s) = true ->
+  exists m last,
+    nsteps_of (run s orc) = S m /\
+    iter_steps (S m) orc 0 s [] =
+      (state_of (run s orc), repeat (ROk false) m ++ [last], snd (run s orc)) /\
+    final_matches last (rres_of (run s orc)).
+Proof.
+  intros Ht Hc. pose proof (run_terminates_lemma s orc Ht) as Hf.
+  unfold run in *. rewrite Hc in *.
+  destruct (run_loop_is_steps _ _ _ _ _ Hf) as (m & last & A & B & C). exists m, last. auto.
+Qed.
